@@ -106,7 +106,7 @@ def check(case, stats, clauses, nontrivial):
         crossing = (na & 3) + w > 4
         in_range = L.classify(addr, w) == "ok"
         accept = in_range and not crossing
-        h0, a0, _ = _stats(mem)
+        h0, a0, last0 = _stats(mem)
         c0 = pm.cycles
         counted = True if rw == "w" else bool(op[3])
         before = None
@@ -195,8 +195,8 @@ def check(case, stats, clauses, nontrivial):
         h1, a1, last = _stats(mem)
         if "accounting" in clauses:
             if not counted:
-                if (h1, a1) != (h0, a0) or pm.cycles != c0:
-                    raise Violation("uncounted-read-counted", case, f"op {k} {op}: counters {(h0, a0)}->{(h1, a1)}, cycles {c0}->{pm.cycles}")
+                if (h1, a1, last) != (h0, a0, last0) or pm.cycles != c0:
+                    raise Violation("uncounted-read-counted", case, f"op {k} {op}: counters/last_hit {(h0, a0, last0)}->{(h1, a1, last)}, cycles {c0}->{pm.cycles}")
             else:
                 if a1 != a0 + 1:
                     raise Violation("access-counter", case, f"op {k} {op}: accesses {a0}->{a1}")
